@@ -11,7 +11,8 @@ list, otherwise comma separated.  reads (SEGS): comma separated, never empty.
                                     (MASK: one 0/1 per read = call read_pending_data after it)
   ck SEGS                        -> per read `tag/chunks/fin/unused/nrs` joined by `;`
   v3 M SEGS                      -> per read `tag/nev/fin/unused/nrs` joined by `;`, then ` EVENTS`
-  v3resp M SEGS                  -> response-handler state after the whole input
+  v3resp FX M SEGS               -> response-handler state after the whole input
+                                    (FX = T: handler variant with the F15 fix, see Model)
   req W SEGS                     -> per read `tag/fin/unused/nrs` joined by `;`, then ` ARGS BODY`
   enc.lp B | enc.ck LIST ERR | enc.v3 M HEADERS PARTS | enc.tuple LIST | dec.tuple B
   enc.args LIST | dec.args B | enc.req LIST BODY | enc.offsets s:l,s:l
@@ -197,17 +198,17 @@ def handleLine : List String → String
       let (out, s) := v3Run (V3.init m) l []
       semi out ++ " " ++ showEvs s.events
     | _, _ => "bad-op"
-  | ["v3resp", m, segs] =>
-    match parseBool m, parseSegs segs with
-    | some m, some l =>
+  | ["v3resp", fx, m, segs] =>
+    match parseBool fx, parseBool m, parseSegs segs with
+    | some fx, some m, some l =>
       let s := feedAll V3.feed (V3.init m) l
       -- handler callbacks happen before a later framing error is detected
-      match Resp.run {} s.events, s with
+      match Resp.run fx {} s.events, s with
       | .error e, _ => showResp (.error e)
       | .ok _, .failed _ .badVersion => "E:BadVersion"
       | .ok _, .failed _ .badKind => "E:BadKind"
       | .ok r, _ => showResp (.ok r) ++ " " ++ showBool s.finished ++ " " ++ toHex s.unused
-    | _, _ => "bad-op"
+    | _, _, _ => "bad-op"
   | ["req", w, segs] =>
     match parseBool w, parseSegs segs with
     | some w, some l =>
